@@ -25,14 +25,14 @@ def programs(ctx, n):
 
 
 def run(ctx) -> None:
-    ctx.rule = ("programs = every program of <= 4 (quick) / 5 (thorough) statements over the position-move alphabet of MC_Asm "
+    ctx.rule = ("programs = every program of <= 4 (quick) / 6 (thorough) statements over the position-move alphabet of MC_Asm "
                 "(*= / @= to coinciding ROM, bank-end and RAM addresses, data, labels, blocks) + seeded APR trees of the definite class (10-22 top-level statements, nesting <= 3); "
                 "non-trivial = programs the spec gives a meaning (outcome ok/fail) with at least one position move "
                 "or bank crossing")
     ctx.trusted = ["TLC 1.8", "spec/Asm.tla + Bus.tla + Instr.tla", "harness/apr.py renderer"]
     ctx.assumptions = ["programs the statements give no meaning (spec outcome 'unspec') are counted, not judged"]
     from harness.props import asm_mc
-    L = 4 if ctx.quick else 5
+    L = 4 if ctx.quick else 6
     asm_mc.design_level(ctx, "moves", L)
     tlc_progs = asm_mc.programs(ctx, "moves", L)
     progs = tlc_progs + programs(ctx, 400 if ctx.quick else 6000)
